@@ -45,11 +45,11 @@ Open Scope N_scope.
 Open Scope string_scope.
 Definition mk (m : mode) (h : string) : item := {| imode := m; itext := unhex h |}.
 Definition S_ := mk MStr.
-Definition B0 := mk (MBreak PConcat).
-Definition B1 := mk (MBreak PVarargs).
-Definition B2 := mk (MBreak PMinus).
-Definition B3 := mk (MBreak PEqual).
-Definition B4 := mk (MBreak PLongString).
+Definition B0 := mk (MBreak BConcat).
+Definition B1 := mk (MBreak BVarargs).
+Definition B2 := mk (MBreak BMinus).
+Definition B3 := mk (MBreak BEqual).
+Definition B4 := mk (MBreak BLongString).
 Definition R_ := mk MRaw.
 Definition N_ (n : N) := mk (MNlRaw n).
 Definition M_ := mk MMerge.
